@@ -98,7 +98,13 @@ fn exhaustive_job(k: usize, fam: usize, chunk: usize, chunks: usize) -> Stats {
             env = BDDEnv::new();
         }
         let t = Tt::from_u64(k as u32, bits);
-        let d = build_in_env(&env, &t, &vars);
+        // every third diagram is not built by this environment (plain unshared nodes)
+        let d = if bits % 3 == 1 {
+            st.bump("foreign_diagrams");
+            crate::conv::build_ref(&t, &vars)
+        } else {
+            build_in_env(&env, &t, &vars)
+        };
         check_retain(&mut st, &env, &labels, &(d, t), name);
     }
     st
@@ -107,8 +113,11 @@ fn exhaustive_job(k: usize, fam: usize, chunk: usize, chunks: usize) -> Stats {
 fn random_job(ctx: &Ctx, job: usize, iters: u64) -> Stats {
     let mut st = Stats::new();
     let mut rng = Rng::stream(ctx.seed, "C20.random", job as u64);
-    for _ in 0..iters {
-        let env: BDDEnv<usize> = BDDEnv::new();
+    let mut env: BDDEnv<usize> = BDDEnv::new();
+    for it in 0..iters {
+        if it % 300 == 0 {
+            env = BDDEnv::new();
+        }
         let nvars = 5 + rng.usize(4);
         let uni = pick_labels(&mut rng, &LABEL_POOL, nvars);
         // functions with many forced choices: conjunction / disjunction of a literal with a random function
@@ -118,7 +127,7 @@ fn random_job(ctx: &Ctx, job: usize, iters: u64) -> Stats {
             let v = if rng.chance(1, 2) { Tt::var(nvars as u32, i) } else { Tt::var(nvars as u32, i).not() };
             t = if rng.chance(1, 2) { t.and(&v) } else { t.or(&v) };
         }
-        let d = build_in_env(&env, &t, &vars_of(&uni));
+        let d = if rng.chance(1, 3) { crate::conv::build_ref(&t, &vars_of(&uni)) } else { build_in_env(&env, &t, &vars_of(&uni)) };
         check_retain(&mut st, &env, &uni, &(d, t), "random");
         st.bump("random_functions");
     }
@@ -132,59 +141,88 @@ fn cli_case(ctx: &Ctx, st: &mut Stats, text: &str) {
     let free = ast.free_names();
     let bin = ctx.bin("rsbdd");
     for flt in ["t", "f", "any", "True", "0"] {
-        st.evals += 1;
-        st.bump("cli_runs");
-        let args = vec![format!("--evaluate={}", text), "-c".to_string(), flt.to_string(), "-t".to_string()];
-        let out = cli::run(&bin, &args, None, None, Some((20_000_000, 10_000)), Duration::from_secs(60));
-        let case = json!({"kind": "cli", "text": text});
-        if out.timed_out || out.budget_exceeded() {
-            st.bump("cli_out_of_budget(not judged)");
-            continue;
-        }
-        if !out.ok() {
-            st.violate("c20.cli", format!("C20:cli:{}", out.panic_site()), format!("rsbdd -e `{}` -c {} -t failed: {}\n{}", text, flt, out.status_string(), out.stderr_str()), case);
-            continue;
-        }
-        let so = out.stdout_str();
-        let lines: Vec<&str> = so.lines().collect();
-        let (table, _) = match cli::parse_table(&lines) {
-            Ok(t) => t,
-            Err(e) => {
-                st.violate("c20.cli", "C20:cli:unparsable-table".into(), format!("`{}` -c {}: {}\n{}", text, flt, e, so), case);
+        // the display filter (-f) must not change which direction -c is sound in
+        for show in [None, Some("t"), Some("f")] {
+            st.evals += 1;
+            st.bump("cli_runs");
+            let mut args = vec![format!("--evaluate={}", text), "-c".to_string(), flt.to_string(), "-t".to_string()];
+            if let Some(sh) = show {
+                args.push("-f".into());
+                args.push(sh.into());
+                st.bump("cli_runs_with_display_filter");
+            }
+            let out = cli::run(&bin, &args, None, None, Some((20_000_000, 10_000)), Duration::from_secs(60));
+            let case = json!({"kind": "cli", "text": text});
+            if out.timed_out || out.budget_exceeded() {
+                st.bump("cli_out_of_budget(not judged)");
                 continue;
             }
-        };
-        if table.header.iter().any(|h| !free.contains(h)) {
-            st.violate("c20.cli", "C20:cli:non-free-column".into(), format!("`{}`: header {:?}, free {:?}", text, table.header, free), case);
-            continue;
-        }
-        // function printed = union of True rows; False rows must be its complement (partition is C10's business)
-        let n = names.len() as u32;
-        let mut printed = Tt::constant(n, false);
-        for (cells, res) in &table.rows {
-            let mut cover = Tt::constant(n, true);
-            for (h, c) in table.header.iter().zip(cells.iter()) {
-                let i = names.iter().position(|x| x == h).unwrap() as u32;
-                match c {
-                    cli::Cell::True => cover = cover.and(&Tt::var(n, i)),
-                    cli::Cell::False => cover = cover.and(&Tt::var(n, i).not()),
-                    cli::Cell::Any => {}
+            if !out.ok() {
+                st.violate("c20.cli", format!("C20:cli:{}", out.panic_site()), format!("rsbdd {:?} failed: {}\n{}", args, out.status_string(), out.stderr_str()), case);
+                continue;
+            }
+            let so = out.stdout_str();
+            let lines: Vec<&str> = so.lines().collect();
+            let (table, _) = match cli::parse_table(&lines) {
+                Ok(t) => t,
+                Err(e) => {
+                    st.violate("c20.cli", "C20:cli:unparsable-table".into(), format!("`{}` -c {}: {}\n{}", text, flt, e, so), case);
+                    continue;
+                }
+            };
+            if table.header.iter().any(|h| !free.contains(h)) {
+                st.violate("c20.cli", "C20:cli:non-free-column".into(), format!("`{}`: header {:?}, free {:?}", text, table.header, free), case);
+                continue;
+            }
+            // R = the retained diagram. True rows cover (part of) R, False rows (part of) not-R.
+            let n = names.len() as u32;
+            let mut trues = Tt::constant(n, false);
+            let mut falses = Tt::constant(n, false);
+            for (cells, res) in &table.rows {
+                let mut cover = Tt::constant(n, true);
+                for (h, c) in table.header.iter().zip(cells.iter()) {
+                    let i = names.iter().position(|x| x == h).unwrap() as u32;
+                    match c {
+                        cli::Cell::True => cover = cover.and(&Tt::var(n, i)),
+                        cli::Cell::False => cover = cover.and(&Tt::var(n, i).not()),
+                        cli::Cell::Any => {}
+                    }
+                }
+                if *res {
+                    trues = trues.or(&cover);
+                } else {
+                    falses = falses.or(&cover);
                 }
             }
-            if *res {
-                printed = printed.or(&cover);
+            // what is known about R from what was printed: R >= trues, not-R >= falses; with no display
+            // filter (or -f t) trues == R, with -f f falses == not-R
+            let dir = match flt {
+                "t" | "True" => "implied-by",
+                "f" | "0" => "implies",
+                _ => "equal",
+            };
+            let ok = match (dir, show) {
+                // f => R
+                ("implied-by", None) | ("implied-by", Some("t")) => want.leq(&trues),
+                ("implied-by", _) => falses.leq(&want.not()),
+                // R => f
+                ("implies", None) | ("implies", Some("t")) => trues.leq(&want),
+                ("implies", _) => want.not().leq(&falses),
+                (_, None) => trues == want && falses == want.not(),
+                (_, Some("t")) => trues == want,
+                (_, _) => falses == want.not(),
+            };
+            if !ok {
+                st.violate(
+                    "c20.cli",
+                    format!("C20:cli:-c-{}-unsound{}", flt, show.map(|s| format!("-with-f-{}", s)).unwrap_or_default()),
+                    format!("rsbdd -e `{}` -c {}{} -t prints a function that is not {} the formula\n{}", text, flt, show.map(|s| format!(" -f {}", s)).unwrap_or_default(), match dir { "implied-by" => "implied by", "implies" => "implying", _ => "equal to" }, so),
+                    case,
+                );
+            } else if show.is_none() && trues != want {
+                st.nt.insert(mix(util::hash_str(text), util::hash_str(flt)));
+                st.bump("cli_results_with_dropped_choices");
             }
-        }
-        let ok = match flt {
-            "t" | "True" => want.leq(&printed),
-            "f" | "0" => printed.leq(&want),
-            _ => printed == want,
-        };
-        if !ok {
-            st.violate("c20.cli", format!("C20:cli:-c-{}-unsound", flt), format!("rsbdd -e `{}` -c {} -t prints a function that is not {} the formula\n{}", text, flt, match flt { "t" | "True" => "implied by", "f" | "0" => "implying", _ => "equal to" }, so), case);
-        } else if printed != want {
-            st.nt.insert(mix(util::hash_str(text), util::hash_str(flt)));
-            st.bump("cli_results_with_dropped_choices");
         }
     }
 }
@@ -226,13 +264,14 @@ pub fn run(ctx: &Ctx) -> (Stats, Spec) {
         cli_case(ctx, &mut st, t);
     }
     let spec = Spec {
-        rule: "every Boolean function over <= 4 variables (two label families) x {True, False, Any}, random functions over 5-8 sparse labels biased towards forced choices; CLI: generated formulas through `rsbdd -c <filter spelling> -t`. distinct = (table, filter, family) resp. (text, filter); non-trivial = filter != Any and at least one choice actually dropped (result != f).".into(),
+        rule: "every Boolean function over <= 4 variables (two label families) x {True, False, Any}, random functions over 5-8 sparse labels biased towards forced choices; CLI: generated formulas through `rsbdd -c <filter spelling> [-f t|f] -t` (the display filter must not change the direction). distinct = (table, filter, family) resp. (text, filter); non-trivial = filter != Any and at least one choice actually dropped (result != f).".into(),
         assumptions: vec!["the library's 'omitted choice' diagnostics on stderr are ignored (fd 2 is silenced during the in-process part)".into()],
         floors: vec![
             ("filter_True".into(), 60_000, "filter True never exercised".into()),
             ("filter_False".into(), 60_000, "filter False never exercised".into()),
             ("results_with_dropped_choices".into(), 5_000, "the omit arm was hardly exercised".into()),
             ("cli_runs".into(), 100, "CLI never exercised".into()),
+            ("cli_runs_with_display_filter".into(), 100, "-c together with -f never exercised".into()),
             ("distinct_nontrivial".into(), 5_000, "too few non-trivial cases".into()),
         ],
     };
